@@ -131,7 +131,7 @@ def check_gmm(g, x, what, thr_count=None):
     return None
 
 
-def oracle(sc, trainer, switches=(True, True, True), steps=3, dask=False):
+def oracle(sc, trainer, switches=(True, True, True), steps=3, dask=False, floors_late=None):
     import dask.array as da
     from bob.learn.em import GMMMachine, KMeansMachine
 
@@ -164,10 +164,16 @@ def oracle(sc, trainer, switches=(True, True, True), steps=3, dask=False):
         g = gen.mk_gmm(np.full(K, 1 / K), cent, np.ones((K, D)), max_fitting_steps=steps, convergence_threshold=None, update_means=um, update_variances=uv, update_weights=uw)
     else:
         g = GMMMachine(K, trainer="map", ubm=ubm, max_fitting_steps=steps, convergence_threshold=None, update_means=um, update_variances=uv, update_weights=uw)
+    if floors_late is not None:
+        # the floors are raised on a machine that already has its variances: above some entries, below others
+        rr = np.random.default_rng(int(floors_late))
+        v0 = np.asarray(g.variances, float)
+        g.variance_thresholds = v0 * rr.choice([0.25, 4.0], size=v0.shape)
     r = core.impl(lambda: g.fit(xin))
     if isinstance(r, core.ImplError):
         return {"sig": "gmm-fit-raises", "what": f"{trainer}: {r!r}"}
-    return check_gmm(g, x, f"GMM {trainer} on '{sc['kind']}' data, switches {switches}, {steps} steps", gen.EPS if trainer == "ml" else None)
+    return check_gmm(g, x, f"GMM {trainer} on '{sc['kind']}' data, switches {switches}, {steps} steps" + ("" if floors_late is None else ", floors raised after the variances were set"),
+                     gen.EPS if trainer == "ml" else None)
 
 
 def ivector_oracle(ctx, i):
@@ -189,10 +195,11 @@ def search(ctx):
         ctx.count(f"search:{trainer}:{sc['kind']}")
         ctx.case(["s", trainer, sc["kind"], core.tolist(sc["x"]), sw, dask], nontrivial=True)
         steps = 1 + int(ctx.rng.integers(0, 3))
-        f = oracle(sc, trainer, sw, steps=steps, dask=dask)
+        late = int(ctx.rng.integers(0, 10**6)) if trainer in ("ml", "map") and ctx.rng.random() < 0.4 else None
+        f = oracle(sc, trainer, sw, steps=steps, dask=dask, floors_late=late)
         if f and f["sig"] not in seen:
             seen.add(f["sig"])
-            f["input"] = {**{k: sc[k] for k in ("kind", "K", "D", "x", "cent", "sizes")}, "trainer": trainer, "switches": list(sw), "steps": steps, "dask": dask}
+            f["input"] = {**{k: sc[k] for k in ("kind", "K", "D", "x", "cent", "sizes")}, "trainer": trainer, "switches": list(sw), "steps": steps, "dask": dask, "floors_late": late}
             fails.append(f)
     for i in range(ctx.budget(6, 60)):
         f = ivector_oracle(ctx, i)
@@ -210,4 +217,4 @@ def replay(d):
         from props import c10
 
         return c10.replay_validity(sc)
-    return oracle(sc, sc["trainer"], tuple(sc["switches"]), sc["steps"], sc["dask"])
+    return oracle(sc, sc["trainer"], tuple(sc["switches"]), sc["steps"], sc["dask"], sc.get("floors_late"))
